@@ -1191,6 +1191,33 @@ func (tr *fnTrans) checkInvariant(li *loopInfo, from, header *ssa.BasicBlock, co
 	defer func() { tr.cur = save; tr.oblFrom = nil }()
 	if li.spec != nil {
 		for i, inv := range li.spec.Invs {
+			// preservation of a quantified invariant of a range loop is proved in two parts: the indices already
+			// covered at the loop head, and the new one (solvers do not find this case split by themselves)
+			if q, ok := inv.E.(EQuant); ok && q.Forall && strings.HasPrefix(phase, "keep") && li.env != nil {
+				if imp, ok := q.Body.(EBin); ok && imp.Op == "==>" && len(q.Vars) > 0 && q.Vars[0].Sort == "Int" {
+					if k0, ok := li.env.vars["#k"]; ok {
+						env.vars["#k0"] = k0
+						v := EIdent{q.Vars[0].Name}
+						parts := []struct {
+							tag  string
+							cond Expr
+						}{{"old", EBin{"<=", v, EIdent{"#k0"}}}, {"new", EBin{">", v, EIdent{"#k0"}}}}
+						okAll := true
+						for _, pt := range parts {
+							q2 := EQuant{Forall: true, Vars: q.Vars, Pats: q.Pats, Body: EBin{"==>", EBin{"&&", imp.L, pt.cond}, imp.R}}
+							t, err := tr.spec(q2, env)
+							if err != nil {
+								okAll = false
+								break
+							}
+							tr.oblige("inv", fmt.Sprintf("inv[%d].%s[%s].%s", li.ord, phase, labelOr(inv.Label, i), pt.tag), implies(cond, t.S), inv.Src, token.NoPos)
+						}
+						if okAll {
+							continue
+						}
+					}
+				}
+			}
 			t, err := tr.spec(inv.E, env)
 			if err != nil {
 				tr.errorf("%s: loop %d invariant %s: %v", tr.key, li.ord, inv.Src, err)
